@@ -490,6 +490,9 @@ def frame_case(seed, func=None):
     from osyris import Array, Vector, units
     from osyris.core import Layer
 
+    import numba
+
+    numba.set_num_threads(1)  # schedule dependence is C03's / C05's business; here: frames and repeatability of one schedule
     rng = np.random.default_rng(seed)
     func = func or ["map", "map_thick", "histogram2d", "histogram1d", "scatter", "plot", "map_scatter"][seed % 7]
     ndim = 3
@@ -505,11 +508,15 @@ def frame_case(seed, func=None):
         l1 = Layer(layers[1].data, aux=layers[1].arrays, mode="vec", color="w")
         args = (l0, l1)
         kwargs = {"direction": str(rng.choice(["x", "y", "z"])), "dx": 0.8 * units("cm"),
-                  "origin": Vector(Array(0.5, unit="cm"), Array(0.5, unit="cm"), Array(0.5, unit="cm")),
-                  "resolution": {"x": 8}, "norm": "log", "vmax": 50.0}
+                  "origin": Vector(Array(0.47, unit="cm"), Array(0.53, unit="cm"), Array(0.41, unit="cm")),
+                  "resolution": {"x": 32, "y": 32}, "norm": "log", "vmax": 50.0}
+        if func == "map":
+            # a resolution dictionary that leaves y to the default; scalar layers only (the quiver wrapper wants square maps)
+            args = (l0, Layer(layers[0].data, aux=layers[0].arrays, mode="contour", levels=4))
+            kwargs["resolution"] = {"x": 32}
         if func == "map_thick":
             kwargs["dz"] = 0.3 * units("cm")
-            kwargs["resolution"] = {"x": 8, "y": 6}
+            kwargs["resolution"] = {"x": 32, "y": 32}
         if func == "map_scatter":
             pts = Vector(*[Array(rng.uniform(0.3, 0.7, 5), unit="cm") for _ in range(3)], name="pts")
             args = (l0, Layer(pts, mode="scatter", s=Array(np.full(5, 0.05), unit="cm"), c="r"))
@@ -526,7 +533,7 @@ def frame_case(seed, func=None):
         f = osyris.histogram1d
     elif func == "scatter":
         args = (a, b)
-        kwargs = {"color": w, "size": Array(rng.uniform(1, 2, N), unit="dimensionless"), "norm": "log", "vmin": 1.0, "marker": "o"}
+        kwargs = {"color": w, "size": Array(rng.uniform(1, 2, N), unit="dimensionless"), "norm": "log", "vmin": 1.0, "alpha": 0.5}
         f = osyris.scatter
     else:
         args = (b, a, Array(rng.uniform(1, 2, N), unit="g", name="a3"))
@@ -559,6 +566,9 @@ def option_case(seed):
     from osyris import Array, units
     from osyris.core import Layer
 
+    import numba
+
+    numba.set_num_threads(1)
     rng = np.random.default_rng(seed)
     func = ["histogram2d", "map"][seed % 2]
     levels = {k: int(rng.integers(0, 4)) for k in OPTS}  # bit 0: layer, bit 1: call
@@ -586,7 +596,7 @@ def option_case(seed):
         from osyris import Vector
 
         common = dict(direction="z", dx=0.9 * units("cm"), dz=0.5 * units("cm"), resolution={"x": 4, "y": 4, "z": 3},
-                      origin=Vector(*[Array(0.5, unit="cm")] * 3), plot=False)
+                      origin=Vector(Array(0.47, unit="cm"), Array(0.53, unit="cm"), Array(0.41, unit="cm")), plot=False)
         p = osyris.map(lay_in, **common, **ckw)
         lay = p.layers[0]
         ref = {op: osyris.map(Layer(layers[0].data, aux=layers[0].arrays), operation=op, **common) for op in ("sum", "mean")}
